@@ -358,7 +358,7 @@ impl Lease for TtlLease {
 
     /// Reload lease state from snapshot.
     ///
-    /// Filters out already-expired keys during restoration.
+    /// Already-expired entries are restored too, so that the next cleanup removes their keys.
     ///
     /// # Performance
     ///
@@ -375,18 +375,16 @@ impl Lease for TtlLease {
             ))
         })?;
 
-        let now = SystemTime::now();
-
         // Clear existing data
         self.key_to_expiry.clear();
         self.apply_counter.store(0, Ordering::Relaxed);
 
-        // Rebuild single index, skipping expired keys
+        // Rebuild single index. Entries that expired while the node was down are kept:
+        // their keys are still in the state machine's data, and the next cleanup pass is
+        // what removes them. Dropping the entry here would make such a key permanent.
         for (key, expire_at) in snapshot.key_to_expiry {
-            if expire_at > now {
-                let key_bytes = Bytes::from(key);
-                self.key_to_expiry.insert(key_bytes, expire_at);
-            }
+            let key_bytes = Bytes::from(key);
+            self.key_to_expiry.insert(key_bytes, expire_at);
         }
 
         // Update has_keys flag
